@@ -50,6 +50,30 @@ type Case struct {
 	TC      bool   `json:"tc,omitempty"`      // udp: first answer truncated -> TCP fallback dial
 
 	Addr string `json:"addr"` // address string handed to upstream.NewUpstream
+
+	// Siblings: upstreams created in sequence in one process from shared inputs.
+	//   shared-tlsconfig: all members are built from ONE *tls.Config (ServerName
+	//                     empty) and have different URL hosts;
+	//   same-host:        all members name the same host and use the same bootstrap
+	//                     server, but differ in scheme / port.
+	// Every member keeps its own expectation. Group = id of the first member,
+	// Order = position in creation order.
+	GroupKind string `json:"group_kind,omitempty"`
+	Group     int    `json:"group,omitempty"`
+	Order     int    `json:"order,omitempty"`
+	GroupSize int    `json:"group_size,omitempty"`
+}
+
+// siblingSuffix goes into the violation keys of group members (the first member
+// can be affected by what a later one does to the shared input, too).
+func (c *Case) siblingSuffix() string {
+	if c.GroupKind == "" {
+		return ""
+	}
+	if c.GroupKind == "same-host" {
+		return "-sibling-same-host"
+	}
+	return "-" + []string{"first", "second", "third"}[c.Order] + "-upstream-shared-tlsconfig"
 }
 
 var schemes = []string{"", "udp", "tcp", "tcp+pipeline", "tls", "tls+pipeline", "https", "h3", "quic"}
@@ -215,8 +239,65 @@ func genCases(seed int64, n int) []*Case {
 	out := make([]*Case, 0, n)
 	// seed-dependent rotation so that different seeds do not start identically
 	rotS, rotH, rotP := r.Intn(len(schemes)), r.Intn(len(hostClasses)), r.Intn(len(portClasses)-1)
-	for i := 0; i < n; i++ {
-		c := &Case{ID: i}
+	tlsSchemes := []string{"tls", "tls+pipeline", "quic", "https", "h3"}
+	for i := 0; len(out) < n; i++ {
+		// every 11th slot beyond the systematic layers is a sibling group
+		if i >= 2*layer && i%11 == 10 && len(out)+3 <= n {
+			first := len(out)
+			size := 2 + r.Intn(2)
+			if (i/11)%2 == 0 {
+				// ONE shared *tls.Config, different url hosts. The first member is a
+				// tls / quic upstream in 3 of 4 groups (those set ServerName themselves).
+				for k := 0; k < size; k++ {
+					c := &Case{ID: len(out), GroupKind: "shared-tlsconfig", Group: first, Order: k, GroupSize: size}
+					c.Scheme = tlsSchemes[r.Intn(len(tlsSchemes))]
+					if k == 0 && r.Intn(4) > 0 {
+						c.Scheme = tlsSchemes[r.Intn(3)]
+					}
+					c.HostClass = []string{"hostname", "hostname-mixedcase", "v4-loopback", "b6-mapped-loopback", "hostname", "b6-loopback"}[r.Intn(6)]
+					c.PortClass = []string{"none", "random", "random"}[r.Intn(3)]
+					if c.HostClass == "b6-loopback" {
+						c.PortClass = "random"
+					}
+					c.DialKind = "none"
+					if r.Intn(4) == 0 {
+						c.DialKind = "ip-port"
+					}
+					fill(r, c)
+					out = append(out, c)
+				}
+			} else {
+				// same host name, same bootstrap server, different scheme / port
+				host := hostLabel(r, first, "provider")
+				ver, ip := 4, loop4(first, 2).String()
+				if r.Intn(4) == 0 {
+					ver, ip = 6, "::1"
+				}
+				used := map[int]bool{}
+				for k := 0; k < size; k++ {
+					c := &Case{ID: len(out), GroupKind: "same-host", Group: first, Order: k, GroupSize: size}
+					c.Scheme = tlsSchemes[r.Intn(len(tlsSchemes))]
+					c.HostClass, c.DialKind = "hostname", "none"
+					c.PortClass = []string{"none", "random", "853", "443"}[r.Intn(4)]
+					fill(r, c)
+					eff := c.Port
+					if eff == 0 {
+						eff = defaultPort(c.Scheme)
+					}
+					if used[eff] { // members must differ in port
+						c.Port, c.PortClass = casePort(c.ID, 0), "random"
+						eff = c.Port
+					}
+					used[eff] = true
+					c.HostText, c.Host = host, host
+					c.Via, c.BootVer, c.BootIP = "direct", ver, ip
+					c.render()
+					out = append(out, c)
+				}
+			}
+			continue
+		}
+		c := &Case{ID: len(out)}
 		c.Scheme = schemes[(i+rotS)%len(schemes)]
 		c.HostClass = hostClasses[(i/len(schemes)+rotH)%len(hostClasses)]
 		if i < layer {
@@ -473,7 +554,11 @@ func fill(r *rand.Rand, c *Case) {
 		c.TC = r.Intn(3) == 0
 	}
 
-	// ---- render ----
+	c.render()
+}
+
+// render writes the address string from the structured members.
+func (c *Case) render() {
 	var sb strings.Builder
 	if c.Scheme != "" {
 		sb.WriteString(c.Scheme)
@@ -671,6 +756,6 @@ func (c *Case) formKey() string {
 }
 
 func (c *Case) classFP() string {
-	return strings.Join([]string{schemeName(c.Scheme), c.HostClass, c.PortClass, c.DialKind, c.Via,
+	return strings.Join([]string{schemeName(c.Scheme), c.HostClass, c.PortClass, c.DialKind, c.Via, c.GroupKind, fmt.Sprint(c.Order),
 		fmt.Sprint(c.BootVer), fmt.Sprint(c.Path != ""), fmt.Sprint(c.TC)}, "|")
 }
